@@ -187,15 +187,17 @@ def main():
                             (('A', 'A'), ('A', 'B'), ('B', 'A'), ('A', 'C'), ('C', 'A')):
                         pairs.append({'pre': pre, 'c0': c0, 'c1': c1, 'u0': u0, 'u1': u1})
         tot = explore.Agg()
-        bound = 1 if t == 'quick' else 2
-        if t == 'quick':
-            # quick: all pairs at d=0, the snapshot-involving pairs on s1 at d=1
-            for p in pairs:
-                b = 1 if (p['pre'] == 's1' and 'snapshot' in (p['c0'], p['c1']) and p['u0'] == 'A' and p['u1'] in ('A', 'B')) else 0
-                p['_b'] = b
+        for p in pairs:
+            snap = 'snapshot' in (p['c0'], p['c1'])
+            if t == 'quick':
+                # quick: all pairs at d=0, the snapshot-involving pairs on s1 at d=1
+                p['_b'] = 1 if (p['pre'] == 's1' and snap and p['u0'] == 'A' and p['u1'] in ('A', 'B')) else 0
+            else:
+                # thorough: every pair at d=1, the snapshot-involving pairs of same-family users on s1 at d=2
+                p['_b'] = 2 if (p['pre'] == 's1' and snap and (p['u0'], p['u1']) in (('A', 'A'), ('A', 'B'))) else 1
         det = True
         for p in pairs:
-            b = p.pop('_b', bound)
+            b = p.pop('_b', 1)
             agg, info = explore.explore(run_overlap, p, b)
             det &= info['deterministic_replay']
             for sig, detail in agg.viol:
